@@ -123,10 +123,20 @@ def boot(cfg=None):
     from ..boot import boot as _boot
 
     _boot(sim_locks=True)
-    import cffi
-    import tensora
+    init_trace_state()
     from tensora import Tensor
     from tensora.compile import evaluate_cffi, evaluate_tensora
+
+    # warm-up: every lazily imported module, one compile per back end, before any simulated run
+    t = Tensor.from_lol([1, 2])
+    evaluate_tensora("w(i) = v(i)", "d", v=t)
+    evaluate_cffi("w(i) = v(i)", "d", v=t)
+    import pickle  # noqa: F401
+
+
+def init_trace_state():
+    import cffi
+    import tensora
 
     src = os.path.dirname(tensora.__file__)
     cf = os.path.dirname(cffi.__file__)
@@ -141,11 +151,6 @@ def boot(cfg=None):
         path = os.path.join(base, suffix.split("/", 1)[1] if suffix.startswith("cffi/") else suffix)
         win[(path, fn)] = w
     _state["windows"] = win
-    # warm-up: every lazily imported module, one compile per back end, before any simulated run
-    t = Tensor.from_lol([1, 2])
-    evaluate_tensora("w(i) = v(i)", "d", v=t)
-    evaluate_cffi("w(i) = v(i)", "d", v=t)
-    import pickle  # noqa: F401
 
 
 def _do_call(prob, tensors):
